@@ -9,6 +9,7 @@ package main
 import (
 	"bytes"
 	"fmt"
+	"io"
 	"os"
 	"os/exec"
 	"path/filepath"
@@ -23,7 +24,14 @@ import (
 
 func main() { hc.Main(run) }
 
-const nFiles, nTemps = 4, 2
+const nFiles, nTemps = 4, 3 // temporary tables tt0, tt1 and — number 2 — the STDIN table
+
+func tempName(t int) string {
+	if t == 2 {
+		return "STDIN"
+	}
+	return fmt.Sprintf("tt%d", t)
+}
 
 func tbl(xs []int) string {
 	if len(xs) == 0 {
@@ -143,7 +151,7 @@ func tempState(pr *hc.Proc, tr *tracker) string {
 	for t := 0; t < nTemps; t++ {
 		ts[t] = "-"
 		if tr.temp[t] {
-			v, err := pr.Query(fmt.Sprintf("SELECT v FROM tt%d", t))
+			v, err := pr.Query("SELECT v FROM " + tempName(t))
 			if err != nil {
 				ts[t] = "?" + err.Error()
 				continue
@@ -239,6 +247,23 @@ func oneHistory(g *hc.Gen, o *hc.Out, scratch, bin string, h int) {
 		pr := hc.NewProc(d)
 		pr.P.Tx.AutoCommit = false
 		o.Case("c01.reset "+strings.Join(init, " "), diskState(d, tr)+"|"+tempState(pr, tr))
+		// in half of the histories data is piped in: the STDIN table behaves like a temporary table whose
+		// restore point is the piped data (COMMIT keeps, ROLLBACK and abnormal endings restore)
+		stdinData := ""
+		if g.Intn(2) == 0 {
+			k := g.Intn(4)
+			xs := make([]int, k)
+			for i := range xs {
+				xs[i] = g.Intn(5)
+			}
+			stdinData = string(fileBytes(xs))
+			if err := pr.P.Tx.Session.SetStdin(io.NopCloser(strings.NewReader(stdinData))); err != nil {
+				o.Law("set_stdin_error", err.Error())
+			} else {
+				tr.temp[2] = true
+				o.Case("c01.dstdin "+tbl(xs), "ok|"+diskState(d, tr)+"|"+tempState(pr, tr))
+			}
+		}
 
 		// files a transaction never changed must not be rewritten by its COMMIT: which files had at least one
 		// record changed is read from csvq's own statement log, rewriting is seen as a new inode
@@ -379,11 +404,14 @@ func oneHistory(g *hc.Gen, o *hc.Out, scratch, bin string, h int) {
 				}
 			case c < 14:
 				pickTemp(false)
+				if t == 2 {
+					continue // STDIN is not declared: it exists from the start of the run, or not at all
+				}
 				line, sql = fmt.Sprintf("c01.dtemp %d", t), fmt.Sprintf("DECLARE tt%d VIEW (v);", t)
 			case c < 16:
 				pickTemp(true)
 				k, a := kinds[g.Intn(len(kinds))], g.Intn(5)
-				line, sql = fmt.Sprintf("c01.dmltemp %d %s %d", t, k, a), dmlSQL(fmt.Sprintf("tt%d", t), k, a)
+				line, sql = fmt.Sprintf("c01.dmltemp %d %s %d", t, k, a), dmlSQL(tempName(t), k, a)
 			case c < 17:
 				line, sql = "c01.commit", "COMMIT;"
 			case c < 18:
@@ -493,6 +521,13 @@ func oneHistory(g *hc.Gen, o *hc.Out, scratch, bin string, h int) {
 				}
 			}
 			lines = append(lines, "c01.reset "+strings.Join(init, " "))
+			if stdinData != "" && tr.temp[2] {
+				rows := strings.ReplaceAll(strings.TrimSuffix(strings.TrimPrefix(stdinData, "v\n"), "\n"), "\n", ",")
+				if rows == "" {
+					rows = "e"
+				}
+				lines = append(lines, "c01.dstdin "+rows)
+			}
 			var text strings.Builder
 			var sourced []string
 			stoppedByFailure := false
@@ -552,7 +587,7 @@ func oneHistory(g *hc.Gen, o *hc.Out, scratch, bin string, h int) {
 			case "interrupt-in-commit":
 				text.WriteString("COMMIT;")
 			case "error":
-				text.WriteString("SELECT 1 / 0;") // (unreached if a statement above already failed)
+				text.WriteString("SELECT 1 / 0 FROM DUAL;") // (unreached if a statement above already failed)
 			case "exit":
 				text.WriteString("EXIT;")
 			}
@@ -576,6 +611,9 @@ func oneHistory(g *hc.Gen, o *hc.Out, scratch, bin string, h int) {
 					}
 				}
 				tc := exec.Command(bin, "--repository", d3, "--quiet", text.String())
+				if stdinData != "" {
+					tc.Stdin = strings.NewReader(stdinData)
+				}
 				tc.Dir = d3
 				tc.Env = append(os.Environ(), "HOME="+d3, "VERIF_TRACE="+trace)
 				_ = tc.Run()
@@ -593,6 +631,9 @@ func oneHistory(g *hc.Gen, o *hc.Out, scratch, bin string, h int) {
 				lines = lines[:1]
 			}
 			cmd := exec.Command(bin, "--repository", d2, text.String())
+			if stdinData != "" {
+				cmd.Stdin = strings.NewReader(stdinData)
+			}
 			cmd.Dir = d2
 			cmd.Env = append(env, "HOME="+d2)
 			var ob bytes.Buffer
